@@ -94,14 +94,21 @@ func optsFor(prop string, tier string, i int, r *rng.Rand) GenOpts {
 			o.Ckpt = true
 		}
 	case "C05":
-		// checkpoints and rotations between the requests
-		o.Ckpt = true
 		o.Clean = i%2 == 0
 		o.MaxSteps = 9
+		if i%2 == 1 {
+			o.Mode = "bg" // the REAL loop: timer flushes, timer checkpoints, rotation every 2nd checkpoint
+		} else {
+			o.Ckpt = true // synchronous mode, checkpoints and rotations as history steps
+		}
 	case "C35":
 		o.Shutdown = true
-		o.Ckpt = i%2 == 1
 		o.Clean = i%3 != 2
+		if i%2 == 0 {
+			o.Mode = "bg" // the real SyncWAL goroutine and Shutdown()
+		} else {
+			o.Ckpt = true // synchronous mode with explicit checkpoints/rotations, then the shutdown branch's two calls
+		}
 	case "C34":
 		o.Clean = true
 		o.Ckpt = i%3 == 2
@@ -308,6 +315,9 @@ func DriverMain(prop string, args []string) int {
 			obs = append(obs, h.ToObs(d, k, ex.Outs[j]))
 		}
 		sched, err := h.Sched(d)
+		if h.Mode == "bg" {
+			sched, err = h.SchedBG(d)
+		}
 		if err != nil {
 			l.Err = err.Error()
 		}
